@@ -193,6 +193,40 @@ def frames_of(stream):
     return out, stream[pos:]
 
 
+def envelope_malformed(frame):
+    """The request-message grammar the KMIP specification fixes (6.1, 7.1): Request Message =
+    Request Header, Batch Item+; the header has a Protocol Version (major, minor) and a Batch Count;
+    every batch item has an Operation and a Request Payload. A frame that parses as TTLV but lacks
+    one of these cannot be decoded as a request by anyone. Returns a description or None (also None
+    when the frame is not well-formed TTLV: then only the library's decoder decides)."""
+    try:
+        tree = ttlv.parse(frame, strict=False)
+    except Exception:   # noqa
+        return None
+    if tree[0] != T.REQUEST_MESSAGE.value or tree[1] != ttlv.STRUCTURE:
+        return None
+    kids = tree[2]
+    hdrs = [k for k in kids if k[0] == T.REQUEST_HEADER.value and k[1] == ttlv.STRUCTURE]
+    if len(hdrs) != 1 or kids[0] is not hdrs[0]:
+        return "no request header"
+    h = hdrs[0]
+    pv = ttlv.find(h, T.PROTOCOL_VERSION.value)
+    if pv is None or pv[1] != ttlv.STRUCTURE:
+        return "request header without a protocol version"
+    if ttlv.find(pv, T.PROTOCOL_VERSION_MAJOR.value) is None or \
+            ttlv.find(pv, T.PROTOCOL_VERSION_MINOR.value) is None:
+        return "protocol version without major/minor number"
+    if ttlv.find(h, T.BATCH_COUNT.value) is None:
+        return "request header without a batch count"
+    items = [k for k in kids[1:] if k[0] == T.BATCH_ITEM.value and k[1] == ttlv.STRUCTURE]
+    for i, it in enumerate(items):
+        if ttlv.find(it, T.OPERATION.value) is None:
+            return "batch item %d without an operation" % i
+        if ttlv.find(it, T.REQUEST_PAYLOAD.value) is None:
+            return "batch item %d without a request payload" % i
+    return None
+
+
 def library_accepts(frame):
     try:
         m = W.messages.RequestMessage()
@@ -332,6 +366,9 @@ def _mut_worker(task):
             short = ttlv.short_primitive(frame, m) if label.startswith('length=') else None
             if short:
                 part.count('short_primitive_mutants')
+            elif envelope_malformed(m):
+                short = envelope_malformed(m)
+                part.count('envelope_malformed_mutants')
             sig = judge_stream(m + probe_frame(), '%s|%s' % (label, cname), part, expect_probe=True,
                                ctx={'corpus': cname, 'mutation': label}, undecodable=(0,) if short else ())
             part.count('mutants')
@@ -556,6 +593,7 @@ def run(tier, seed):
              "(mutation kind, outcome) signatures",
         frames=rep.counters.get('frames', 0), content_mutants=rep.counters.get('mutants', 0),
         short_primitive_mutants=rep.counters.get('short_primitive_mutants', 0),
+        envelope_malformed_mutants=rep.counters.get('envelope_malformed_mutants', 0),
         corpus_requests=len(corp), chunkings_16_byte=len(comps), exhaustive=False,
     ), assumptions=[
         "recv() returning None is not in the menu (a blocking TLS socket never does); an incomplete "
@@ -563,7 +601,9 @@ def run(tier, seed):
         "'the library's decoder rejects the frame' is decided by running RequestMessage.read "
         "separately on the same bytes; in addition a frame in which a primitive item declares more "
         "value bytes than its enclosing structure holds cannot be fully decoded by anyone and must be "
-        "refused (structures with over-long length fields whose children are all present are "
+        "refused, and so must a frame that is well-formed TTLV but lacks a part the request grammar "
+        "makes mandatory (request header, protocol version with major and minor, batch count, an "
+        "operation and a request payload in every batch item) (structures with over-long length fields whose children are all present are "
         "accepted by the library's lenient decoder and are not demanded to be refused)",
         "the outer TTLV length is the framing itself, so mutants keep it consistent with the bytes sent",
     ])
@@ -584,7 +624,8 @@ def replay(doc):
         frame = dict(corpus(tier))[doc['corpus']]
         for label, m in mutations(frame):
             if label == doc['mutation']:
-                short = ttlv.short_primitive(frame, m) if label.startswith('length=') else None
+                short = (ttlv.short_primitive(frame, m) if label.startswith('length=') else None) or \
+                    envelope_malformed(m)
                 judge_stream(m + probe_frame(), label + '|' + doc['corpus'], part, expect_probe=True,
                              undecodable=(0,) if short else ())
                 break
